@@ -421,12 +421,19 @@ def spec_single(ck, c, obj, idx, mc, call):
                 f = full[0] if full else (part[0] if part else None)
             faces_of_row.append(f)
             if f is None or f not in am:
-                bad = bad or ("polygon_vertices", "row %d is neither a face ring nor pieces of an antimeridian face" % k)
+                why = "no_face"
+                rr = dedup_ring(rs[0]) if len(rs) == 1 else None
+                if rr is not None and len(rr) == 4 and f is not None and f not in am and \
+                        sorted(map(tuple, np.abs(rr).tolist())) == [(180.0, 90.0)] * 4:
+                    # antimeridian.fix_polygon(fix_winding=False) turns a clockwise lon/lat ring into "the globe
+                    # with a hole"; the exterior taken from it is the +-180 x +-90 rectangle
+                    why = "globe_rectangle_for_noncrossing_face"
+                bad = bad or ("polygon_vertices", "row %d is neither a face ring nor pieces of an antimeridian face" % k, why)
             continue
         faces_of_row.append(None)
-        bad = bad or ("polygon_vertices", "row %d matches no face" % k)
+        bad = bad or ("polygon_vertices", "row %d matches no face" % k, "no_face")
     if bad:
-        ck.fail(bad[0], c, dict(info, reason="no_face"), detail=bad[1])
+        ck.fail(bad[0], c, dict(info, reason=bad[2]), detail=bad[1])
         return faces_of_row
     # ---- which faces are shown, how often
     shown = [f for f in faces_of_row if f is not None and not isinstance(f, tuple)]
